@@ -271,7 +271,7 @@ def C13(ctx):
     mc(ctx, "SigV4", "MC_SigV4_bug_scope_before_window.cfg", expect_violation="Precedence", label="neg-scope-before-window")
     fn_campaign(ctx, [("errtable", 0)], [])
     req_campaign(ctx, [("defects", 2 if q else 14), ("scripts", 1 if q else 0), ("degenerate", 0), ("akid", 0),
-                       ("reqfold", 0), ("ioerr", 0), ("cfgmix", 0, 13 if q else 1)])
+                       ("reqfold", 0), ("ioerr", 0), ("spell", 0), ("cfgmix", 0, 13 if q else 1)])
     return dict(
         rule="MC: SigV4.tla Precedence/Taxonomy over every subset of simultaneous defects (%s) x 4 carriers x provider "
              "scripts; E: one wire request per (defect subset with <= %d defects, carrier, 3 witnesses per rule), rendered "
